@@ -329,7 +329,7 @@ func checkC06(c *core.Ctx, r *core.Report) {
 		if st, ok := named.Underlying().(*types.Struct); ok {
 			for i := 0; i < st.NumFields(); i++ {
 				own[st.Field(i)] = true
-				if st.Field(i).Name() == "options" {
+				if c.BaseName(st.Field(i)) == "options" {
 					if pt, ok := st.Field(i).Type().Underlying().(*types.Pointer); ok {
 						if ost, ok := pt.Elem().Underlying().(*types.Struct); ok {
 							for j := 0; j < ost.NumFields(); j++ {
@@ -564,8 +564,8 @@ func checkC06(c *core.Ctx, r *core.Report) {
 				switch {
 				case reset:
 					r.OK("REWIND", construct, c.Pos(fa.writes[f].Pos()), "assigned in the Rewind cone of the wrapper")
-				case dpExceptions[f.Name()] != "":
-					r.Assume("REWIND", construct, c.Pos(fa.writes[f].Pos()), "exception: "+dpExceptions[f.Name()])
+				case dpExceptions[c.BaseName(f)] != "":
+					r.Assume("REWIND", construct, c.Pos(fa.writes[f].Pos()), "exception: "+dpExceptions[c.BaseName(f)])
 				default:
 					r.Violation("REWIND", construct, c.Pos(fa.writes[f].Pos()), fmt.Sprintf("the DataProcessor wrapper keeps cross-batch state in field %s (written and read while fetching) that DataProcessor.Rewind does not re-assign on its own copy: on the second pass of a downstream two-pass command this stage continues from where the first pass ended (e.g. a merge limit already counted as reached returns no rows)", f.Name()))
 				}
@@ -1092,7 +1092,7 @@ func c06DeadState(c *core.Ctx, r *core.Report, impls []*types.Named) {
 	for _, f := range list {
 		i := fields[f]
 		construct := fmt.Sprintf("%s:running-counter(%s)-is-consulted", i.owner.Obj().Name(), f.Name())
-		if i.owner.Obj().Name() == "inputlookupProcessor" && f.Name() == "numprocessed" && !i.consulted {
+		if c.BaseName(i.owner.Obj()) == "inputlookupProcessor" && c.BaseName(f) == "numprocessed" && !i.consulted {
 			// one named exception: inputlookup is a generating command, not one of the transforming commands C06
 			// quantifies over.  (The counter IS dead on the pinned tree, with a visible effect that no property
 			// covers: `inputlookup max=N` compares N with the rows read in the current call, so with N above the
